@@ -9,7 +9,7 @@ for key, gkey, file, src in (
     ("StackBasedGGGPRepresentation", "StackGenotype", STK, None),
 ):
     R.cls(gkey, src="Genotype", fields={"dna": "list[int]"}, file=file, init_fields=["dna"])
-    R.cls(key, fields={"grammar": "Grammar", "gene_length": "int", "decider": "SynthesisDecider", "failures_limit": "int"}, file=file)
+    R.cls(key, fields={"grammar": "Grammar", "gene_length": "int", "decider": "MaxDepthDecider", "failures_limit": "int"}, file=file)
     REPINV = {
         "gene_length_pos": "self.gene_length >= 1",
     }
